@@ -43,43 +43,47 @@ theorem mac_input_injective (s₁ s₂ : List Stanza) (w₁ : ∀ s ∈ s₁, s.
   simp only [Except.ok.injEq, Prod.mk.injEq, and_true] at h1
   exact (Header.mk.inj h1).1.symm
 
-/-- **Reduction form.** Take any header `h'` accepted by Decrypt with file key `fk`
-    (the one an identity unwrapped from `h'`'s stanzas). If `h'` carries the MAC
-    of an honest header with different stanzas under the same file key, then
-    HMAC under the header key maps two different messages to the same tag — an
-    explicit HMAC collision/forgery. (If instead the unwrapped file key differs
-    from the honest one, a stanza was re-wrapped to the recipient: something anyone
-    holding the public key can do and no header MAC prevents; the payload then
-    fails on its first chunk, see C02.) -/
+/-- **Reduction form.** Take any header `h'` accepted by Decrypt: some identity unwrapped a file key `fk` from `h'`'s
+    stanzas and `h'`'s MAC is the MAC of `h'`'s stanzas under `fk` (that much is `mac_gate`). If `h'` carries the MAC
+    of an honest header with different stanzas under that same file key, then HMAC under the header key maps two
+    different messages to the same tag — an explicit HMAC collision/forgery. (If instead the unwrapped file key
+    differs from the honest one, a stanza was re-wrapped to the recipient: something anyone holding the public key
+    can do and no header MAC prevents; the payload then fails on its first chunk, see C02.) The file key of the
+    conclusion is PINNED to the one an identity unwrapped: without that clause the statement would follow from
+    `parse` alone, by choosing an `fk` that falsifies the inner premise. -/
 theorem header_edit_reduction (P : Prims) (ids : List Identity) (file' k payload : Bytes) (c : Nat)
     (honest : List Stanza) (hw : ∀ s ∈ honest, s.WF)
     (h : decryptInit P ids file' = (.ok (k, payload), c)) :
     ∃ hdr' rest fk, parse file' = .ok (hdr', rest) ∧
+      (∃ i ∈ ids, i.unwrap P hdr'.stanzas = .key fk) ∧ headerMAC P fk hdr'.stanzas = hdr'.mac ∧
       (hdr'.stanzas ≠ honest → hdr'.mac = headerMAC P fk honest →
         marshalNoMAC { stanzas := hdr'.stanzas, mac := [] } ≠ marshalNoMAC { stanzas := honest, mac := [] } ∧
         P.hmac (P.hkdf fk [] headerInfo 32) (marshalNoMAC { stanzas := hdr'.stanzas, mac := [] })
           = P.hmac (P.hkdf fk [] headerInfo 32) (marshalNoMAC { stanzas := honest, mac := [] })) := by
-  obtain ⟨hdr', rest, fk, hp, _, _, hmac, _⟩ := decryptInit_ok P ids file' k payload c h
-  refine ⟨hdr', rest, fk, hp, ?_⟩
+  obtain ⟨hdr', rest, fk, hp, hid, _, hmac, _⟩ := decryptInit_ok P ids file' k payload c h
+  refine ⟨hdr', rest, fk, hp, hid, hmac, ?_⟩
   intro hne hreuse
   have hwf' := (parse_canon hp).2.1
   refine ⟨fun e => hne (mac_input_injective _ _ hwf' hw e), ?_⟩
   rw [hreuse] at hmac
   exact hmac
 
-/-- **Idealised form.** If HMAC under the header key is injective on messages (no
-    two messages share a tag — the symbolic idealisation of unforgeability), then a
-    parseable header whose stanzas differ from the honest ones but which reuses the
-    honest MAC is rejected for every identity list that unwraps the honest file
-    key: Decrypt returns an error and no reader. Covers edits confined to other
-    recipients' stanzas, insertion, deletion, duplication and every reordering,
-    because `stanzas'` is an arbitrary list different from `honest`. -/
+/-- **Idealised form.** If the honest header's MAC input has NO SECOND PREIMAGE under the header key (no other
+    message has the honest tag — the symbolic idealisation of unforgeability, for this one tag), then a parseable
+    header whose stanzas differ from the honest ones but which reuses the honest MAC is rejected for every identity
+    list that unwraps the honest file key: Decrypt returns an error and no reader. Covers edits confined to other
+    recipients' stanzas, insertion, deletion, duplication and every reordering, because `stanzas'` is an arbitrary
+    list different from `honest`. (The hypothesis used to be injectivity of HMAC on ALL messages, which no HMAC with a
+    32-byte output can have — `hinj_contradicts_hmac_len` below; the local form is met by lawful suites, see
+    `header_edit_rejected_nonvacuous`.) -/
 theorem header_edit_rejected (P : Prims) (ids : List Identity) (file' : Bytes) (fk : Bytes)
     (honest : List Stanza) (hw : ∀ s ∈ honest, s.WF)
     (hdr' : Header) (rest : Bytes) (hp : parse file' = .ok (hdr', rest))
     (hne : hdr'.stanzas ≠ honest) (hreuse : hdr'.mac = headerMAC P fk honest)
     (hsame : ∀ i ∈ ids, ∀ k', i.unwrap P hdr'.stanzas = .key k' → k' = fk)
-    (hinj : ∀ m₁ m₂, P.hmac (P.hkdf fk [] headerInfo 32) m₁ = P.hmac (P.hkdf fk [] headerInfo 32) m₂ → m₁ = m₂) :
+    (hnc : ∀ m, P.hmac (P.hkdf fk [] headerInfo 32) m =
+        P.hmac (P.hkdf fk [] headerInfo 32) (marshalNoMAC { stanzas := honest, mac := [] }) →
+      m = marshalNoMAC { stanzas := honest, mac := [] }) :
     ∀ k payload c, decryptInit P ids file' ≠ (.ok (k, payload), c) := by
   intro k payload c h
   obtain ⟨hdr2, rest2, fk2, hp2, ⟨i, hi, hik⟩, _, hmac, _⟩ := decryptInit_ok P ids file' k payload c h
@@ -90,7 +94,7 @@ theorem header_edit_rejected (P : Prims) (ids : List Identity) (file' : Bytes) (
   subst hfk
   rw [hreuse] at hmac
   unfold headerMAC at hmac
-  have := hinj _ _ hmac
+  have := hnc _ hmac
   exact hne (mac_input_injective _ _ (parse_canon hp).2.1 hw this)
 
 /-- a MAC that is not the correct MAC of the presented header is rejected outright
@@ -110,6 +114,207 @@ theorem wrong_mac_rejected (P : Prims) (ids : List Identity) (file' : Bytes) (hd
 example : ∃ ids file k payload c, decryptInit Prims.toy ids file = (.ok (k, payload), c) :=
   let ⟨f, k, p, _, _, h⟩ := Props.C01.nonvacuous_roundtrip
   ⟨_, f, k, p, 1, h⟩
+
+/-! ## Non-vacuity: for every theorem above, concrete values meeting all of its hypotheses at once -/
+
+/-- witness values: a 16-byte file key; the two stanzas an ssh-rsa and an X25519 recipient wrap it in under the toy
+    primitives; a passphrase and an ssh-ed25519 identity (both answer "incorrect" on these stanzas) and the X25519
+    identity that opens the second stanza; a 16-byte payload nonce; a 9-byte plaintext -/
+def wFk : Bytes := [1, 2, 3, 4, 5, 6, 7, 8, 9, 10, 11, 12, 13, 14, 15, 16]
+def wStanzas : List Stanza :=
+  [{ type := tSshRsa, args := [sshTag Prims.toy [1, 2, 3]], body := wFk },
+   { type := tX25519, args := [B64.encRaw (List.replicate 32 0)], body := wFk ++ List.replicate 12 0 }]
+def wPre : List Identity := [Identity.scrypt [112] 22, Identity.sshEd [1] [2]]
+def wId : Identity := Identity.x25519 (List.replicate 32 2)
+def wNonce : Bytes := List.replicate 16 8
+def wPt : Bytes := [1, 2, 3, 4, 5, 6, 7, 8, 9]
+/-- the honest file for these values (chunks of 4) -/
+def wFile : Bytes := specFile Prims.toy 4 wFk wStanzas wNonce wPt
+
+/-- (helper for the witnesses below) -/
+theorem wStanzas_wf : ∀ s ∈ wStanzas, s.WF := by
+  intro s hs
+  simp only [wStanzas, List.mem_cons, List.mem_nil_iff, or_false] at hs
+  rcases hs with rfl | rfl <;> exact ⟨by decide, by decide⟩
+
+/-- non-vacuity of `mac_gate`: toy primitives; Decrypt accepts the honest two-stanza file `wFile` for the identity list
+    passphrase, ssh-ed25519, X25519 — the third identity opens the file key -/
+theorem mac_gate_nonvacuous :
+    decryptInit Prims.toy (wPre ++ wId :: []) wFile =
+      (.ok (streamKey Prims.toy wFk wNonce, Stream.encrypt Prims.toy.aead 4 (streamKey Prims.toy wFk wNonce) wPt), 3) :=
+  decryptInit_specFile Prims.toy Prims.toy_correct 4 wFk wNonce wPt wStanzas wStanzas_wf (by decide) (by decide)
+    wPre [] wId (by decide) (by decide)
+
+example : ∃ hdr rest fk, parse wFile = .ok (hdr, rest) ∧ (∃ i ∈ wPre ++ wId :: [], i.unwrap Prims.toy hdr.stanzas = .key fk) ∧
+    hdr.mac = Prims.toy.hmac (Prims.toy.hkdf fk [] headerInfo 32) (marshalNoMAC hdr) :=
+  let ⟨hdr, rest, fk, h1, h2, h3, _⟩ := mac_gate Prims.toy _ wFile _ _ _ mac_gate_nonvacuous
+  ⟨hdr, rest, fk, h1, h2, h3⟩
+
+/-- non-vacuity of `mac_covers_received_bytes`: the same file parses, into a header with two stanzas -/
+theorem mac_covers_received_bytes_nonvacuous :
+    parse wFile = .ok ({ stanzas := wStanzas, mac := headerMAC Prims.toy wFk wStanzas },
+      wNonce ++ Stream.encrypt Prims.toy.aead 4 (streamKey Prims.toy wFk wNonce) wPt) :=
+  specFile_parse Prims.toy Prims.toy_correct 4 wFk wNonce wPt wStanzas wStanzas_wf
+
+/-- non-vacuity of `mac_input_injective`: two well-formed stanza lists with the same MAC input (necessarily the same list) -/
+theorem mac_input_injective_nonvacuous :
+    (∀ s ∈ wStanzas, s.WF) ∧ (∀ s ∈ wStanzas, s.WF) ∧
+    marshalNoMAC { stanzas := wStanzas, mac := [] } = marshalNoMAC { stanzas := wStanzas, mac := [] } :=
+  ⟨wStanzas_wf, wStanzas_wf, rfl⟩
+
+/-- the honest header of which `wStanzas` is an edit: the X25519 stanza alone (the ssh-rsa stanza was inserted in front) -/
+def wHonest : List Stanza := [{ type := tX25519, args := [B64.encRaw (List.replicate 32 0)], body := wFk ++ List.replicate 12 0 }]
+
+/-- non-vacuity of `header_edit_reduction`, inner hypotheses included: toy primitives; `wFile` is accepted, its stanzas
+    differ from the honest list `wHonest`, and its MAC is the honest MAC under the same file key (the toy HMAC is
+    constant, so the theorem's conclusion — an HMAC collision — is what one finds) -/
+theorem header_edit_reduction_nonvacuous :
+    ∃ hdr' rest k payload,
+      (∀ s ∈ wHonest, s.WF) ∧ decryptInit Prims.toy (wPre ++ wId :: []) wFile = (.ok (k, payload), 3) ∧
+      parse wFile = .ok (hdr', rest) ∧ hdr'.stanzas ≠ wHonest ∧ hdr'.mac = headerMAC Prims.toy wFk wHonest := by
+  refine ⟨_, _, _, _, ?_, mac_gate_nonvacuous, mac_covers_received_bytes_nonvacuous, by decide, rfl⟩
+  intro s hs
+  simp only [wHonest, List.mem_singleton] at hs
+  subst hs
+  exact ⟨by decide, by decide⟩
+
+/-- a LAWFUL suite in which the honest MAC input has no second preimage: HMAC answers 32 one-bytes on that message and
+    32 zero-bytes on every other; everything else as in the toy suite -/
+def wPsp : Prims :=
+  { Prims.toy with hmac := fun _ m => if m = marshalNoMAC { stanzas := wHonest, mac := [] } then List.replicate 32 1 else List.replicate 32 0 }
+
+theorem wPsp_correct : wPsp.Correct where
+  aead := AEAD.toy_correct
+  dh_comm := by intros; rfl
+  x25519_len := by intro a b c h; simp [wPsp, Prims.toy] at h; subst h; simp
+  sha256_len := by intro b; simp [wPsp, Prims.toy]
+  hmac_len := by intro k m; simp only [wPsp]; split <;> simp
+  oaep := by intro pub priv _ seed m l c h; simp [wPsp, Prims.toy] at h ⊢; exact h.symm
+
+/-- the edited header: the stanzas of `wStanzas` (the ssh-rsa stanza inserted in front) under the honest MAC -/
+def wHdr' : Header := { stanzas := wStanzas, mac := headerMAC wPsp wFk wHonest }
+
+theorem wHdr'_mac : wHdr'.mac = List.replicate 32 1 := by
+  simp [wHdr', headerMAC, wPsp]
+
+/-- non-vacuity of `header_edit_rejected`, with a lawful primitive suite (`wPsp_correct`): the honest header is the
+    X25519 stanza alone; the presented header carries the two stanzas of `wStanzas` under the honest MAC; the
+    identities are passphrase, ssh-ed25519, X25519, the last of which does unwrap the file key -/
+theorem header_edit_rejected_nonvacuous :
+    wPsp.Correct ∧ (∀ s ∈ wHonest, s.WF) ∧ parse (marshal wHdr' ++ wNonce) = .ok (wHdr', wNonce) ∧
+    wHdr'.stanzas ≠ wHonest ∧ wHdr'.mac = headerMAC wPsp wFk wHonest ∧
+    (∀ i ∈ wPre ++ wId :: [], ∀ k', i.unwrap wPsp wHdr'.stanzas = .key k' → k' = wFk) ∧
+    (∀ m, wPsp.hmac (wPsp.hkdf wFk [] headerInfo 32) m =
+        wPsp.hmac (wPsp.hkdf wFk [] headerInfo 32) (marshalNoMAC { stanzas := wHonest, mac := [] }) →
+      m = marshalNoMAC { stanzas := wHonest, mac := [] }) ∧
+    wId.unwrap wPsp wHdr'.stanzas = .key wFk := by
+  refine ⟨wPsp_correct, ?_, parse_marshal wHdr' ⟨wStanzas_wf, by rw [wHdr'_mac]; rfl⟩ _, by decide, rfl, ?_, ?_, by decide⟩
+  · intro s hs
+    simp only [wHonest, List.mem_singleton] at hs
+    subst hs
+    exact ⟨by decide, by decide⟩
+  · have h : ∀ i ∈ wPre ++ wId :: [], i.unwrap wPsp wHdr'.stanzas = .incorrect ∨ i.unwrap wPsp wHdr'.stanzas = .key wFk := by
+      decide
+    intro i hi k' hk
+    rcases h i hi with h | h
+    · rw [h] at hk; cases hk
+    · rw [h] at hk; cases hk; rfl
+  · intro m hm
+    simp only [wPsp, if_true] at hm
+    split at hm
+    · assumption
+    · exact absurd hm (by decide)
+
+example : ∀ k payload c, decryptInit wPsp (wPre ++ wId :: []) (marshal wHdr' ++ wNonce) ≠ (.ok (k, payload), c) :=
+  let ⟨_, hw, hp, hne, hreuse, hsame, hnc, _⟩ := header_edit_rejected_nonvacuous
+  header_edit_rejected wPsp _ _ wFk wHonest hw wHdr' wNonce hp hne hreuse hsame hnc
+
+/-- non-vacuity of `wrong_mac_rejected`: toy primitives (whose HMAC is 32 zero bytes); the two-stanza header under a MAC
+    of 32 bytes of value 1; the X25519 identity does unwrap the file key -/
+theorem wrong_mac_rejected_nonvacuous :
+    parse (marshal { stanzas := wStanzas, mac := List.replicate 32 1 } ++ wNonce) =
+      .ok ({ stanzas := wStanzas, mac := List.replicate 32 1 }, wNonce) ∧
+    (∀ i ∈ wPre ++ wId :: [], ∀ k', i.unwrap Prims.toy wStanzas = .key k' →
+      headerMAC Prims.toy k' wStanzas ≠ List.replicate 32 1) ∧
+    wId.unwrap Prims.toy wStanzas = .key wFk :=
+  ⟨parse_marshal _ ⟨wStanzas_wf, by decide⟩ _, fun _ _ _ _ h => (by decide : List.replicate 32 (0 : UInt8) ≠ List.replicate 32 1) h, by decide⟩
+
+example : ∀ k payload c, decryptInit Prims.toy (wPre ++ wId :: [])
+    (marshal { stanzas := wStanzas, mac := List.replicate 32 1 } ++ wNonce) ≠ (.ok (k, payload), c) :=
+  let ⟨hp, hbad, _⟩ := wrong_mac_rejected_nonvacuous
+  wrong_mac_rejected Prims.toy _ _ _ wNonce hp hbad
+
+/-! ### why the hypothesis of `header_edit_rejected` is local: injectivity on ALL messages is impossible for a 32-byte HMAC -/
+
+/-- pigeonhole: `N + 1` naturals below `N` are not pairwise distinct -/
+theorem pigeonhole : ∀ (N : Nat) (g : Nat → Nat), (∀ i, i ≤ N → g i < N) → ∃ i j, i < j ∧ j ≤ N ∧ g i = g j := by
+  intro N
+  induction N with
+  | zero => intro g h; exact absurd (h 0 (Nat.le_refl 0)) (Nat.not_lt_zero _)
+  | succ N ih =>
+    intro g h
+    by_cases hc : ∃ i, i ≤ N ∧ g i = g (N + 1)
+    · obtain ⟨i, hi, e⟩ := hc
+      exact ⟨i, N + 1, by omega, Nat.le_refl _, e⟩
+    · have hne : ∀ i, i ≤ N → g i ≠ g (N + 1) := fun i hi e => hc ⟨i, hi, e⟩
+      obtain ⟨i, j, hij, hj, e⟩ := ih (fun i => if g (N + 1) < g i then g i - 1 else g i) (by
+        intro i hi
+        have h1 := h i (by omega)
+        have h2 := h (N + 1) (Nat.le_refl _)
+        have h3 := hne i hi
+        show (if g (N + 1) < g i then g i - 1 else g i) < N
+        split <;> omega)
+      refine ⟨i, j, hij, by omega, ?_⟩
+      have h3 := hne i (by omega)
+      have h4 := hne j hj
+      have e' : (if g (N + 1) < g i then g i - 1 else g i) = (if g (N + 1) < g j then g j - 1 else g j) := e
+      split at e' <;> split at e' <;> omega
+
+/-- a byte string as a number (little-endian) -/
+def leNat : Bytes → Nat
+  | [] => 0
+  | x :: xs => x.toNat + 256 * leNat xs
+
+theorem leNat_lt : ∀ b : Bytes, leNat b < 256 ^ b.length
+  | [] => by simp [leNat]
+  | x :: xs => by
+    have := leNat_lt xs
+    have hx := x.toNat_lt
+    simp only [leNat, List.length_cons, Nat.pow_succ]
+    omega
+
+theorem leNat_inj : ∀ a b : Bytes, a.length = b.length → leNat a = leNat b → a = b
+  | [], [], _, _ => rfl
+  | [], _ :: _, h, _ => by simp at h
+  | _ :: _, [], h, _ => by simp at h
+  | x :: xs, y :: ys, h, e => by
+    have hx := x.toNat_lt
+    have hy := y.toNat_lt
+    simp only [leNat] at e
+    simp only [List.length_cons, Nat.add_right_cancel_iff] at h
+    have h1 : x.toNat = y.toNat := by omega
+    have h2 : leNat xs = leNat ys := by omega
+    rw [leNat_inj xs ys h h2, UInt8.toNat_inj.mp h1]
+
+/-- HMAC under a key being injective on ALL messages cannot hold for an HMAC with 32-byte output — in particular not
+    for any `P` with `P.Correct` (`hmac_len`): among the 256^32 + 1 messages `0^0, 0^1, …` two share a tag. The first
+    form of `header_edit_rejected` assumed it and so said nothing about a lawful suite (found by the vacuity audit);
+    it now assumes only that the ONE honest tag has no second preimage. -/
+theorem hinj_contradicts_hmac_len (P : Prims) (hlen : ∀ k m, (P.hmac k m).length = 32) (K : Bytes) :
+    ¬ (∀ m₁ m₂, P.hmac K m₁ = P.hmac K m₂ → m₁ = m₂) := by
+  intro hinj
+  obtain ⟨i, j, hij, _, e⟩ := pigeonhole (256 ^ 32) (fun i => leNat (P.hmac K (List.replicate i 0))) (by
+    intro i _
+    have := leNat_lt (P.hmac K (List.replicate i 0))
+    rw [hlen] at this
+    exact this)
+  have := hinj _ _ (leNat_inj _ _ (by rw [hlen, hlen]) e)
+  have := congrArg List.length this
+  simp only [List.length_replicate] at this
+  omega
+
+example (P : Prims) (hP : P.Correct) (K : Bytes) : ¬ (∀ m₁ m₂, P.hmac K m₁ = P.hmac K m₂ → m₁ = m₂) :=
+  hinj_contradicts_hmac_len P hP.hmac_len K
 
 end Props.C03
 end AgeModel
